@@ -40,7 +40,10 @@ void WireMonitor::attach(World &w)
 void WireMonitor::on_deliver(const Datagram &dg, Instance *to)
 {
 	if (to->idx != srv_idx) return;
-	if (is_raw_frame(dg.data)) return;
+	if (is_raw_frame(dg.data)) {
+		if (dg.data.size() >= 4) { int u = dg.data[3] & 15; for (auto &c : credits) if (c.pingdata && c.user == u && !c.answered) c.forgotten = true; }
+		return;
+	}
 	refdns::Msg m;
 	if (!refdns::parse(dg.data, m).empty()) return;       // malformed queries earn no credit
 	if (m.qr() || m.q.size() != 1) return;
@@ -160,14 +163,18 @@ void WireMonitor::on_send(const Datagram &dg)
 void WireMonitor::after_server_step()
 {
 	if (!judge_c14) return;
-	// lazy-mode bound: at most two distinct ping/data questions of a session are held back
-	std::map<int, std::set<std::pair<std::string, uint16_t>>> held;
+	// lazy-mode bound: at most two distinct ping/data questions of a session are held back.  A question is
+	// held when the most recently received query datagram carrying it is still unanswered (an earlier copy that
+	// was superseded by a later duplicate never gets an answer of its own and does not count).
+	std::map<int, std::map<std::pair<std::string, uint16_t>, bool>> latest_unanswered;
 	for (auto &c : credits)
-		if (c.pingdata && !c.answered && c.id != 0 && W.now - c.t < 50ull * 1000000) held[c.user].insert(std::make_pair(c.name, c.qtype));
-	for (auto &kv : held) {
-		if ((int)kv.second.size() > max_held) max_held = (int)kv.second.size();
-		if (kv.second.size() > 2)
-			v->fail("C14", "C14:held>2", fmt("server holds back %zu distinct ping/data queries of user %d", kv.second.size(), kv.first));
+		if (c.pingdata && c.id != 0 && W.now - c.t < 50ull * 1000000) latest_unanswered[c.user][std::make_pair(c.name, c.qtype)] = !c.answered && !c.forgotten;
+	for (auto &kv : latest_unanswered) {
+		int n = 0;
+		for (auto &q : kv.second) if (q.second) n++;
+		if (n > max_held) max_held = n;
+		if (n > 2)
+			v->fail("C14", "C14:held>2", fmt("server holds back %d distinct ping/data queries of user %d", n, kv.first));
 	}
 }
 
